@@ -305,6 +305,11 @@ class Aligner:
         if leaf is None:
             return
         var = leaf.appended_to or leaf.var
+        if leaf.func == res.func:
+            seen = set()
+            while var not in res.field_of_var and var in res.appended and var not in seen:
+                seen.add(var)
+                var = res.appended[var]      # the local that finally carries the value into the constructor decides the default
         d = default_expr(res, leaf, var)
         dk = default_kind(d)
         ann = self.field_annotation(cls, path.replace("[]", "")) or ""
